@@ -126,6 +126,23 @@ def run(ctx):
           lambda x: (inner[x[0]]['first'] + x[1] - 1, (inner[x[0]]['year'], inner[x[0]]['month'], x[1])), 'lunar -> civil -> lunar is the identity for every valid lunar date',
           lambda x: '%s-%s-%d' % (inner[x[0]]['year'], inner[x[0]]['month'], x[1]), fn_site(p, 'LunarDay::get_solar_day'))
 
+    # ---- stepping a lunar day follows the civil day line: x.next(n) is the lunar date of the civil day n days later, and it is ordered after x exactly when n > 0
+    def ld_next(x):
+        k, d, n = x
+        r = inner[k]
+        ld = I.call('LunarDay::from_ymd', [r['year'], r['month'], d])
+        nx = t.m(ld, 'next', n)
+        return ((py(t.m(nx, 'get_year')), py(t.m(nx, 'get_month')), py(t.m(nx, 'get_day'))), t.m(ld, 'is_before', nx), t.m(ld, 'is_after', nx))
+
+    def ld_next_orc(x):
+        k, d, n = x
+        return (s2l_orc(inner[k]['first'] + d - 1 + n)[0], n > 0, n < 0)
+    ndom = [(k, d, n) for k in range(len(inner)) for d in sorted(set([1, 2, inner[k]['count'] - 1, inner[k]['count']])) for n in (-31, -30, -29, -1, 1, 29, 30, 31)
+            if n_lo <= inner[k]['first'] + d - 1 + n <= n_hi]
+    table(ctx, 'PETE-SCENARIO', 'LunarDay::next', ndom, ld_next, ld_next_orc,
+          'a lunar day stepped by n is the lunar date of the civil day n days later (day+1 in the same month or day 1 of the following month, into and out of leap months) and is ordered accordingly',
+          lambda x: '%s-%s-%d next(%d)' % (inner[x[0]]['year'], inner[x[0]]['month'], x[1], x[2]), fn_site(p, 'LunarDay::next'))
+
     # ---- the same conversions at the level of instants: an instant's lunar hour sits in the same (possibly leap) month as its day and converts back to the instant
     def t2l(x):
         n, sec = x
